@@ -19,7 +19,9 @@ pub fn robots(c: &Case) -> Vec<(Opw, rs_opw_kinematics::parameters::opw_kinemati
     let (o, p) = opw_of(c); out.push((o, p));
     if c.vo("params").is_none() {
         // a few more geometries with the same sign/offset convention: b = 0, a1 = 0, larger a2, different proportions
-        for g in [[0.15, -0.11, 0.0, 0.55, 0.61, 0.66, 0.12], [0.0, -0.2, 0.03, 0.4, 0.5, 0.45, 0.1], [0.32, 0.2, -0.04, 0.78, 1.075, 1.142, 0.2], [0.025, -0.035, 0.0, 0.4, 0.455, 0.42, 0.08]] {
+        for g in [[0.15, -0.11, 0.0, 0.55, 0.61, 0.66, 0.12], [0.0, -0.2, 0.03, 0.4, 0.5, 0.45, 0.1], [0.32, 0.2, -0.04, 0.78, 1.075, 1.142, 0.2], [0.025, -0.035, 0.0, 0.4, 0.455, 0.42, 0.08],
+                  // shoulder offset pointing backwards (a1 < 0): the wrist centre can lie between the J1 and J2 axes
+                  [-0.2, -0.11, 0.0, 0.55, 0.61, 0.66, 0.12], [-0.15, 0.1, 0.02, 0.5, 0.7, 0.6, 0.1]] {
             let mut o2 = o; let mut p2 = p;
             o2.a1 = g[0]; o2.a2 = g[1]; o2.b = g[2]; o2.c1 = g[3]; o2.c2 = g[4]; o2.c3 = g[5]; o2.c4 = g[6];
             p2.a1 = g[0]; p2.a2 = g[1]; p2.b = g[2]; p2.c1 = g[3]; p2.c2 = g[4]; p2.c3 = g[5]; p2.c4 = g[6];
